@@ -243,10 +243,17 @@ def correspond(cfg, hres, work):
 
 
 def load_findings():
+    out = []
     p = os.path.join(VERIF, 'known_findings.json')
-    if not os.path.exists(p):
-        return []
-    return json.load(open(p)).get('findings', [])
+    if os.path.exists(p):
+        out += json.load(open(p)).get('findings', [])
+    # per-property fragments (merged into known_findings.json by the integrator)
+    for f in sorted(glob.glob(os.path.join(VERIF, 'findings', '*.json'))):
+        try:
+            out += json.load(open(f)).get('findings', [])
+        except ValueError:
+            pass
+    return out
 
 
 def oracle_failures(hres, prop):
